@@ -243,6 +243,21 @@ theorem c03_unlock_unlinks_before_resume :
               (positions Generated.plainAccesses "mutex" "unlock" ["call:fn"]) = true
     ∧ (positions Generated.plainAccesses "mutex" "unlock" ["call:fn"]).length = 1 := by decide
 
+/-- `mutex::build_queue` looks at the owner-private list `_queue` (assertions included) only after its acquire exchange on
+`_requests`.  A requester whose publishing CAS in `subscribe()` found the mutex unlocked is ordered after the previous owners
+*only* by that exchange (its own CAS is release-only); the pinned code asserted on `_queue` before it (data race with the last
+owner's writes in debug builds, repaired by a4116c4) -/
+def buildQueueAcquiresFirst (tbl : List PlainAccess) : Bool :=
+  let rows := tbl.filter (fun a => a.cls == "mutex" && a.fn == "build_queue" && a.base == "" && a.field == "_queue")
+  rows.all (fun a => a.nOps ≥ 1) && rows.length ≥ 2
+
+theorem c03_build_queue_acquires_before_queue : buildQueueAcquiresFirst Generated.plainAccesses = true := by decide
+
+/-- the as-is shape of the pinned commit (assert first) fails the obligation -/
+example : buildQueueAcquiresFirst
+    [{ cls := "mutex", fn := "build_queue", base := "", field := "_queue", write := false, pos := 0, nOps := 0, inAssert := true },
+     { cls := "mutex", fn := "build_queue", base := "", field := "_queue", write := true, pos := 4, nOps := 1, inAssert := false }] = false := by decide
+
 /-- an async coroutine's frame is destroyed only after its future has been resolved -/
 theorem c03_final_resolve_before_destroy :
     allBefore (positions Generated.plainAccesses "async_promise::final_awaiter" "await_suspend" ["call:resolve"])
